@@ -443,10 +443,11 @@ pub fn http_request(addr: &str, body: &str, timeout_ms: u64) -> Option<String> {
 pub struct WsClient {
     stream: Option<TcpStream>,
     buf: Vec<u8>,
+    sentinel: u64,
 }
 impl WsClient {
     pub fn connect(addr: &str) -> Option<WsClient> {
-        TcpStream::connect(addr).ok().map(|s| WsClient { stream: Some(s), buf: Vec::new() })
+        TcpStream::connect(addr).ok().map(|s| WsClient { stream: Some(s), buf: Vec::new(), sentinel: 0 })
     }
     pub fn send(&mut self, msg: &str) -> bool {
         match self.stream.as_ref() {
@@ -460,6 +461,28 @@ impl WsClient {
         match frame::read_frame_blocking(ep, &mut self.buf, Some(deadline)) {
             Some(Frame::Data(d)) => Some(String::from_utf8_lossy(&d).to_string()),
             _ => None,
+        }
+    }
+    /// Send one frame followed by a unique unknown command; collect every frame up to the
+    /// sentinel's error reply.
+    pub fn request(&mut self, msg: &str, timeout_ms: u64) -> Option<Vec<String>> {
+        self.sentinel += 1;
+        let mark = format!("zw{}", self.sentinel);
+        if !self.send(msg) || !self.send(&mark) {
+            return None;
+        }
+        let want = format!("error unknown command: {} \n", mark);
+        let mut out = Vec::new();
+        loop {
+            match self.recv(timeout_ms) {
+                Some(m) => {
+                    if m == want {
+                        return Some(out);
+                    }
+                    out.push(m);
+                }
+                None => return None,
+            }
         }
     }
     pub fn close_clean(&mut self) {
